@@ -12,6 +12,9 @@ type editStrategy int
 
 var strategyNotImplemented = fmt.Errorf("strategy %w.", fc.NotImplementedError)
 
+// internal: the node an edit was about to write is under a condition that is false
+var errHiddenByCondition = fmt.Errorf("hidden by a condition")
+
 const (
 	editUpsert editStrategy = iota + 1
 	editInsert
@@ -215,20 +218,42 @@ func (e editor) node(from *Selection, to *Selection, m meta.HasDataDefinitions, 
 	toRequest.New = false
 	toRequest.Selection = to
 
-	toChild, err := to.selekt(&toRequest)
+	toChild, hidden, err := to.selektVisible(&toRequest)
 	if err != nil {
 		return err
+	}
+	if hidden {
+		// there, but under a condition (when) that is false for the data of the
+		// destination: such a node is not written by edits
+		return nil
 	}
 	if toChild != nil {
 		defer toChild.Release()
 	}
 	toRequest.New = true
+	// a node that is created and then turns out to be under a false condition is taken away again
+	create := func() (*Selection, error) {
+		created, hidden, err := to.selektVisible(&toRequest)
+		if hidden {
+			undo := toRequest
+			undo.New = false
+			undo.Delete = true
+			if _, derr := to.Node.Child(undo); derr != nil {
+				return nil, derr
+			}
+			return nil, errHiddenByCondition
+		}
+		return created, err
+	}
 	switch strategy {
 	case editInsert:
 		if toChild != nil {
 			return fmt.Errorf("%w. item '%s' found in '%s'.  ", fc.ConflictError, m.Ident(), fromRequest.Path)
 		}
-		if toChild, err = to.selekt(&toRequest); err != nil {
+		if toChild, err = create(); err != nil {
+			if err == errHiddenByCondition {
+				return nil
+			}
 			return err
 		}
 		if toChild != nil {
@@ -245,7 +270,10 @@ func (e editor) node(from *Selection, to *Selection, m meta.HasDataDefinitions, 
 		}
 
 		if toChild == nil {
-			if toChild, err = to.selekt(&toRequest); err != nil {
+			if toChild, err = create(); err != nil {
+				if err == errHiddenByCondition {
+					return nil
+				}
 				return err
 			}
 			if toChild != nil {
@@ -341,12 +369,14 @@ func (e editor) list(from *Selection, to *Selection, m *meta.List, new bool, str
 		toRequest.From = fromChild
 		toRequest.Key = key
 		p.Key = key
+		visible := true
 		if len(key) > 0 {
 			toRequest.New = false
-			if toChild, _, _, err = to.selectListItem(&toRequest); err != nil {
+			if toChild, visible, _, err = to.selectListItem(&toRequest); err != nil {
 				return err
 			}
 		}
+		skip := toChild != nil && !visible
 		toRequest.New = true
 		switch strategy {
 		case editUpdate:
@@ -356,7 +386,7 @@ func (e editor) list(from *Selection, to *Selection, m *meta.List, new bool, str
 			}
 		case editUpsert:
 			if toChild == nil {
-				if toChild, _, _, err = to.selectListItem(&toRequest); err != nil {
+				if toChild, visible, _, err = to.selectListItem(&toRequest); err != nil {
 					return err
 				}
 				newItem = true
@@ -366,7 +396,7 @@ func (e editor) list(from *Selection, to *Selection, m *meta.List, new bool, str
 				return fmt.Errorf("%w, duplicate item found with same key in list %s",
 					fc.ConflictError, to.Path)
 			}
-			if toChild, _, _, err = to.selectListItem(&toRequest); err != nil {
+			if toChild, visible, _, err = to.selectListItem(&toRequest); err != nil {
 				return err
 			}
 			newItem = true
@@ -377,9 +407,22 @@ func (e editor) list(from *Selection, to *Selection, m *meta.List, new bool, str
 		if toChild == nil {
 			return fmt.Errorf("could not create destination list node %s", to.Path)
 		}
+		if newItem && !visible {
+			// the condition (when) of the list is false for the item just created: an item
+			// that is not there is not written, take it away again
+			undo := toRequest
+			undo.New = false
+			undo.Delete = true
+			if _, _, err = to.Node.Next(undo); err != nil {
+				return err
+			}
+			skip = true
+		}
 		toChild.Path.Key = key
-		if err = e.enter(fromChild, toChild, newItem, strategy, false, false); err != nil {
-			return err
+		if !skip {
+			if err = e.enter(fromChild, toChild, newItem, strategy, false, false); err != nil {
+				return err
+			}
 		}
 
 		releaseToChild()
